@@ -66,7 +66,7 @@ def classify(pid, fails, events, res, matchers):
 
 
 def standard_check(pid, tier, seed, tasks, models, rule, nontrivial, assumptions=(), matchers=None,
-                   judge_module="Judge", judge_cfg="Judge.cfg", model_violation=None, extra=None):
+                   judge_module="Judge", judge_cfg="Judge.cfg", model_violation=None, extra=None, derive=None):
     res = common.Result(pid, tier, seed)
     res.rule = rule
     res.assumptions = list(assumptions)
@@ -80,8 +80,12 @@ def standard_check(pid, tier, seed, tasks, models, rule, nontrivial, assumptions
                               {"model": r["module"], "cfg": r["cfg"], "tlc_output_tail": r["out"][-6000:]})
     done = common.run_workers(pid, tasks)
     paths = [p for _, p, _ in done]
-    fails, total, jw = tlc.run_judge(paths, module=judge_module, cfgname=judge_cfg)
     n_events = sum(m["events"] for _, _, m in done)
+    if derive:
+        dpath, dn = derive(done)
+        paths.append(dpath)
+        n_events += dn
+    fails, total, jw = tlc.run_judge(paths, module=judge_module, cfgname=judge_cfg)
     if total != n_events:
         raise tlc.MachineryError("judge consumed %d of %d events" % (total, n_events))
     ops = {}
